@@ -1327,8 +1327,15 @@ matrix_set_size(matrix *self, PyObject *value, void *closure)
 
       PY_ERR_INT(PyExc_TypeError, "invalid size tuple");
 
-  int m = PyLong_AS_LONG(PyTuple_GET_ITEM(value, 0));
-  int n = PyLong_AS_LONG(PyTuple_GET_ITEM(value, 1));
+  long lm = PyLong_AsLong(PyTuple_GET_ITEM(value, 0));
+  long ln = PyLong_AsLong(PyTuple_GET_ITEM(value, 1));
+  if (PyErr_Occurred()) return -1;
+  if (lm < 0 || ln < 0)
+    PY_ERR_INT(PyExc_TypeError, "dimensions must be non-negative");
+  if (lm > INT_MAX || ln > INT_MAX)
+    PY_ERR_INT(PyExc_TypeError, "number of elements in matrix cannot change");
+  int m = (int)lm;
+  int n = (int)ln;
 #else
   if (!PyInt_Check(PyTuple_GET_ITEM(value, 0)) ||
       !PyInt_Check(PyTuple_GET_ITEM(value, 1)))
